@@ -276,6 +276,35 @@ DEFAULT_REF_FNS = {
 }
 
 
+def rival_fns(fns):
+    """The same function NAMES bound to other pure functions: what another application (tenant, trust zone) of the same process
+    hands to ITS checker."""
+    return {k: (lambda c, args, f=f: not f(c, args)) for k, f in fns.items()}
+
+
+REENTER = {'checker': None, 'names': [], 'busy': False, 'calls': 0}
+
+
+def reentrant_fns(fns):
+    """User functions that consult the checker they belong to from inside the call (is this component also a name some rule
+    describes?) before they answer."""
+    def wrap(f):
+        def g(c, args):
+            ck = REENTER['checker']
+            if ck is not None and not REENTER['busy']:
+                REENTER['busy'] = True
+                try:
+                    for nm in REENTER['names']:
+                        for _ in ck.match(nm):
+                            pass
+                    REENTER['calls'] += 1
+                finally:
+                    REENTER['busy'] = False
+            return f(c, args)           # (the arguments are looked at after the checker was consulted)
+        return g
+    return {k: wrap(f) for k, f in fns.items()}
+
+
 def rc_type(comp):
     from . import refcodec as rc
     return rc.comp_parts(bytes(comp))[0]
